@@ -29,6 +29,8 @@ type retEdge struct {
 	state   *State
 	results []Val
 	pos     token.Pos
+	block   *ssa.BasicBlock // the block and instruction index of the return statement (nil for synthesized returns)
+	idx     int
 }
 
 // (fx.matchedSites: call-site clauses that applied to at least one call of the unit)
